@@ -40,7 +40,7 @@ MUTANTS = {
                          "                if not (sig.req_names - names)", ["C02", "C01"]),
     "reqnames_filter_off": ("typemap.py", "                and not (sig.req_names - names)\n", "", ["C02", "C01"]),
     "pushdown_tiebreak_plus": ("core.py", "msig = replace(sig, tiebreak=sig.tiebreak - 1)", "msig = replace(sig, tiebreak=sig.tiebreak + 1)", ["C02"]),
-    "resolve_uses_type": ("core.py", "        return self.map[tuple(map(subtler_type, args))]", "        return self.map[tuple(map(type, args))]", ["C14"]),
+    "resolve_uses_type": ("core.py", "        return tuple(lookup_for(i)(arg) for i, arg in enumerate(args))", "        return tuple(type(arg) for i, arg in enumerate(args))", ["C14"]),
     # ---- C04
     "mro_inplace_filter": ("typemap.py", "            results = {\n                handler: spc\n                for (handler, sig), spc in results.items()\n                if sig.req_pos",
                            "            for _k in [k for k in results if not (k[1].req_pos <= nargs <= k[1].max_pos and not (k[1].req_names - names))]:\n                del results[_k]\n            results = {\n                handler: spc\n                for (handler, sig), spc in results.items()\n                if sig.req_pos", ["C04"]),
@@ -56,7 +56,7 @@ MUTANTS = {
     "callnext_key_no_code": ("recode.py", "        if cn:\n            type_parts.insert(0, ast.Name(id=self.code_mangled, ctx=ast.Load()))\n", "", ["C07"]),
     # ---- C20
     "mtm_pop_result": ("typemap.py", "        else:\n            return self[obj_t_tup]\n", "        else:\n            return self.pop(obj_t_tup)\n", ["C20"]),
-    "resolve_method_recomputes": ("core.py", "        self.ensure_compiled()\n        return self.map[tuple(map(subtler_type, args))]", "        self.ensure_compiled()\n        self.map.resolve(tuple(map(subtler_type, args)))\n        return self.map[tuple(map(subtler_type, args))]", ["C20"]),
+    "resolve_method_recomputes": ("core.py", "        self.ensure_compiled()\n        return self.map[self._lookup_key(args)]", "        self.ensure_compiled()\n        self.map.resolve(self._lookup_key(args))\n        return self.map[self._lookup_key(args)]", ["C20"]),
     # ---- C05
     "typemap_register_noclear": ("typemap.py", "        self.clear()\n        self.types.add(obj_t)", "        self.types.add(obj_t)", ["C05"]),
     "mtm_register_keeps_errors": ("typemap.py", "        self.errors.clear()\n", "", ["C05"]),
@@ -70,7 +70,7 @@ MUTANTS = {
     "compile_no_lock": ("core.py", "        self._lock_parents()\n\n        if self.name is None:", "        if self.name is None:", ["C16"]),
     "lock_not_recursive": ("core.py", "        self._locked = True\n        for mixin in self.mixins:\n            mixin.lock()\n", "        self._locked = True\n", ["C16"]),
     "no_children_append": ("core.py", "                mixin.children.append(self)\n", "                pass\n", ["C16"]),
-    "update_no_children": ("core.py", "        for child in self.children:\n            child._update()\n", "", ["C16"]),
+    "update_no_children": ("core.py", "            try:\n                child._update()\n            except Exception as exc:\n                failure = failure or exc\n", "            pass\n", ["C16"]),
     "addmixins_no_update": ("core.py", "        self.mixins += mixins\n        self._update()\n", "        self.mixins += mixins\n", ["C16"]),
     "copy_shares_defns": ("core.py", "        return Ovld(mixins=[self, *mixins], linkback=linkback)", "        o = Ovld(mixins=[self, *mixins], linkback=linkback)\n        o._defns = self._defns\n        return o", ["C16"]),
     # ---- C06
@@ -101,7 +101,7 @@ MUTANTS = {
     "overlap_keeps_table": ("recode.py", "                    elif disjoint:\n                        keyexpr", "                    elif True:\n                        keyexpr", ["C10"]),
     "conj_drops_second": ("recode.py", '        conj = " and ".join(codes)', '        conj = " and ".join(codes[:1])', ["C10", "C01"]),
     # ---- C15
-    "annotated_not_unwrapped": ("types.py", "        elif isinstance(t, typing._AnnotatedAlias):\n            t = t.__origin__\n", "", ["C15"]),
+    "annotated_not_unwrapped": ("types.py", "        if isinstance(t, typing._AnnotatedAlias):\n            # Annotated[A, ...] is A: normalize what it wraps\n            return self(t.__origin__, fn)\n", "", ["C15"]),
     "tuple_members_reversed_no_norm": ("types.py", "            return Union[tuple(self(t2, fn) for t2 in t)]", "            return Union[tuple(reversed(t))]", ["C11", "C10"]),
     "any_not_object": ("types.py", "        elif t is typing.Any:\n            t = object\n", "", ["C15"]),
     "union_eq_ordered": ("types.py", "        return set(self.__args__) == set(other.__args__)\n\n    def __hash__(self):\n        return hash(frozenset(self.__args__))\n\n    def __str__(self):\n        return \" | \"",
@@ -116,7 +116,7 @@ MUTANTS = {
     "kwargs_wrong_name": ("recode.py", '        body.append(f"    KWARGS[{name!r}] = {name}")', '        body.append(f"    KWARGS[{ko[0]!r}] = {name}")', ["C03"]),
     "required_kw_swapped": ("recode.py", '        posargs.append(f"{name}={name}")', '        posargs.append(f"{name}={kr[0]}")', ["C03"]),
     "empty_key_first_handler": ("typemap.py", "                if sig.req_pos == 0 and not sig.req_names\n            }", "                if sig.req_pos == 0\n            }", ["C03"]),
-    "rename_drops_kwdefaults": ("recode.py", "    new_fn.__kwdefaults__ = fn.__kwdefaults__\n    new_fn.__annotations__ = fn.__annotations__\n    return new_fn\n\n\nclass NameConverter", "    new_fn.__annotations__ = fn.__annotations__\n    return new_fn\n\n\nclass NameConverter", ["C03"]),
+    "rename_drops_kwdefaults": ("recode.py", "    new_fn.__kwdefaults__ = fn.__kwdefaults__\n    new_fn.__annotations__ = fn.__annotations__\n    return new_fn\n\n\nclass PrivateNameMangler", "    new_fn.__annotations__ = fn.__annotations__\n    return new_fn\n\n\nclass PrivateNameMangler", ["C03"]),
     "rename_shares_defaults": ("recode.py", "        newcode, fn.__globals__, newname, fn.__defaults__, fn.__closure__\n    )\n    new_fn.__kwdefaults__", "        newcode, fn.__globals__, newname, None, fn.__closure__\n    )\n    new_fn.__kwdefaults__", ["C03"]),
     # ---- C09
     "rewriter_kw_before_pos": ("recode.py", "        type_parts = [\n            _make_lookup_call(i, arg) for i, arg in enumerate(node.args)\n        ]\n\n        # type index for keyword arguments\n        type_parts += [",
